@@ -14,10 +14,27 @@ VERUS = {
     # zero), PreparedWord::write, repr_to_chunk_buffer, PreparedMedium::new (structure value == number, groups < range),
     # PreparedMedium::write (emits exactly medium_digits digits < radix whose positional value is the number)
     'int_fmt_digits': {'file': 'int_fmt_digits.rs', 'w32': True},
+    # fmt/non_power_two.rs InRadixWriter::fmt_non_power_two (+ repr.rs TypedReprRef::len): every prepared number handed to
+    # format_prepared satisfies its invariant and stands for the magnitude; the size test implies the precondition
+    # `number < range_per_word^CHUNK_LEN` of PreparedMedium::new
+    'int_fmt_dispatch': {'file': 'int_fmt_dispatch.rs', 'w32': True},
 }
 
 _B3 = 'magnitudes of at most 3 words (every DoubleWord through RefSmall; RefLarge with exactly 3 fully symbolic 64-bit ' \
       'words, top word != 0)'
+
+
+def _scan_names(fname, prefix):
+    """Harness names (identifiers with the given prefix) defined in a harness file, in file order."""
+    import os
+    import re
+    path = os.path.join(os.path.dirname(os.path.dirname(os.path.dirname(os.path.abspath(__file__)))), 'kani', 'harness',
+                        fname)
+    out = []
+    for n in re.findall(r'\b(%s\w+)\b' % prefix, open(path).read()):
+        if n not in out:
+            out.append(n)
+    return out
 
 
 def _h(names, kind, text, **kw):
@@ -54,19 +71,19 @@ for _n in ['vk_int_bytes_to_small_be', 'vk_int_bytes_to_small_sle_pos', 'vk_int_
            'vk_int_bytes_from_sbe_17_25', 'vk_int_bytes_roundtrip_concrete_large']:
     _BYTES[_n]['tier'] = 'thorough'
 
-_C3 = '3-word inputs: two fully symbolic low words, top word from the concrete palette in the harness (the control flow ' \
-      'of the chunk codecs depends only on bit length and chunk size), literal chunk size'
+_C3 = '3-word inputs: two fully symbolic low words, literal top word and chunk size (the control flow of the chunk ' \
+      'kernels depends only on bit length and chunk size); chunk / result buffers owned by the harness with the sizes ' \
+      'the callers allocate'
 _CHUNKS = {}
-_CHUNKS.update(_h(['vk_int_chunks_large3_cb128', 'vk_int_chunks_large3_cb64', 'vk_int_chunks_large3_cb65',
-                   'vk_int_chunks_large3_cb63', 'vk_int_chunks_large3_cb200', 'vk_int_chunks_large3_cb7'], 'bounded', _C3))
-_CHUNKS.update(_h(['vk_int_chunks_small_cb1', 'vk_int_chunks_small_cb7'], 'bounded',
-                  'every DoubleWord below 2^13 (cb1) / 2^90 (cb7): at most 13 chunks'))
+_CHUNKS.update(_h(_scan_names('int_chunks.rs', 'vk_int_chunks_kernel_'), 'bounded', _C3))
 _CHUNKS.update(_h(['vk_int_chunks_small_cb63', 'vk_int_chunks_small_cb64', 'vk_int_chunks_small_cb65',
                    'vk_int_chunks_small_cb127', 'vk_int_chunks_small_cb128', 'vk_int_chunks_small_cb129'], 'complete',
                   'every DoubleWord (the whole RefSmall domain) for the literal chunk size'))
 _CHUNKS.update(_h(['vk_int_chunks_from_cb1', 'vk_int_chunks_from_cb64', 'vk_int_chunks_from_cb65',
-                   'vk_int_chunks_from_cb100', 'vk_int_chunks_from_none'], 'bounded',
+                   'vk_int_chunks_from_cb100'], 'bounded',
                   'three chunks of 2, 0, 1 fully symbolic words (chunks wider than the chunk size), literal chunk size'))
+_CHUNKS.update(_h(['vk_int_chunks_glue_cb128', 'vk_int_chunks_glue_cb65', 'vk_int_chunks_glue_none'], 'bounded',
+                  'one concrete 3-word number through to_chunks / from_chunks (allocation glue)'))
 
 _PARSE = {}
 _PARSE.update(_h(['vk_int_parse_p2_word'], 'bounded',
@@ -91,6 +108,6 @@ KANI = {
 }
 
 PROP_UNITS = {
-    'C07': {'verus': ['int_fmt_width', 'int_fmt_digits'],
+    'C07': {'verus': ['int_fmt_width', 'int_fmt_digits', 'int_fmt_dispatch'],
             'undecided': []},
 }
